@@ -471,8 +471,11 @@ func (w *World) oracleBytes() {
 			when = "retry"
 		}
 		if !m.acked {
-			if tx.BodyCall && (!bytes.Equal(tx.Body, m.Body) || !bytes.Equal(tx.Header, m.HdrBytes)) {
-				s.Stat("unacked_truncated_delivery")
+			// never acknowledged to its producer (crash before the hand-off
+			// returned): it may be delivered or not, but never with content
+			// nobody submitted
+			if tx.BodyCall && tx.BodyErr == "" && (!bytes.Equal(tx.Body, m.Body) || !bytes.Equal(tx.Header, m.HdrBytes)) {
+				s.Violate("C10/body-bytes/unacknowledged", "%s tx%d: the message was never acknowledged to its producer, yet it was handed downstream with different content (header %d/%d bytes, body %d/%d bytes); crashes=%v", m.ID, tx.N, len(tx.Header), len(m.HdrBytes), len(tx.Body), len(m.Body), w.crashOps)
 			}
 			continue
 		}
